@@ -79,41 +79,260 @@ def live_tables(facts):
 # ------------------------------------------------------------------ SDK side
 
 class Prov:
+    """The live SDK objects of an abstract provider.  self.aprov is a private deep copy of the abstract provider whose
+    nodes carry their SDK object as node["_o"]; mutations are applied to both sides (apply_mutation), so the abstract
+    side always describes the provider as it is at the time of a call."""
     def __init__(self, aprov):
+        import copy
         from basyx.aas import model
-        self.aprov = aprov
-        self.reg = {}
+        self.aprov = copy.deepcopy(rt.clean(aprov))
         self.stores = []
-        self.objs = []
-        for si, s in enumerate(aprov):
-            roots = [rt.build(t, self.reg, (si, ri)) for ri, t in enumerate(s)]
-            self.objs.append(roots)
+        for s in self.aprov:
+            roots = [rt.build(t, attach=True) for t in s]
             self.stores.append(model.DictObjectStore(roots))
         self.mux = model.ObjectProviderMultiplexer(list(self.stores))
         # a lone store is queried directly (not through the multiplexer)
         self.provider = self.stores[0] if len(self.stores) == 1 else self.mux
+        self.reindex()
 
-    def obj(self, si, ri, p):
-        o = self.objs[si][ri]
+    def reindex(self):
+        self.reg = {}
+        for si, s in enumerate(self.aprov):
+            for ri, t in enumerate(s):
+                for p, n, _ in rt.walk(t):
+                    self.reg[id(n["_o"])] = ([si, ri] + list(p), n["_o"])
+
+    def node(self, si, ri, p):
         t = self.aprov[si][ri]
         for i in p:
             t = t["ch"][i]
-            o = self._child(o, i)
-        return o
+        return t
 
-    def _child(self, o, i):
-        # i-th child in the order of the abstract tree = iteration order of the id_short sets
-        from basyx.aas import model
-        if isinstance(o, model.SubmodelElementList):
-            return o.value[i]
-        items = [x for s in o.namespace_element_sets if "id_short" in s.get_attribute_name_list() for x in s]
-        return items[i]
+    def obj(self, si, ri, p):
+        return self.node(si, ri, p)["_o"]
 
     def pos(self, o):
         ent = self.reg.get(id(o))
         if ent is None or ent[1] is not o:
             return None
         return list(ent[0])
+
+    def verify(self):
+        """the live containers hold exactly the children of the abstract side, in that order (public iteration only)"""
+        from basyx.aas import model
+        bad = []
+        if [id(x) for x in self.mux.providers] != [id(x) for x in self.stores]:
+            bad.append("multiplexer.providers differs from the applied arrangement")
+        for si, s in enumerate(self.aprov):
+            if [id(x) for x in self.stores[si]] != [id(t["_o"]) for t in s]:
+                bad.append(f"store {si} does not hold exactly the objects added/discarded")
+            for t in s:
+                for p, n, _ in rt.walk(t):
+                    o = n["_o"]
+                    if isinstance(o, model.SubmodelElementList):
+                        live = list(o.value)
+                    elif isinstance(o, model.UniqueIdShortNamespace):
+                        live = [x for st in o.namespace_element_sets if "id_short" in st.get_attribute_name_list() for x in st]
+                    else:
+                        live = []
+                    if [id(x) for x in live] != [id(c["_o"]) for c in n["ch"]]:
+                        bad.append(f"children of {o!r} differ from the applied mutations")
+                    for c in n["ch"]:
+                        if c["_o"].parent is not o:
+                            bad.append(f"parent of {c['_o']!r} is not its container")
+        return bad
+
+
+# ------------------------------------------------------------------ mutations (history)
+
+def apply_mutation(aprov, m, P=None):
+    """Apply mutation descriptor m to the abstract provider (in place); with P also to the live objects through the
+    public API (P.aprov must be aprov).  New subtrees are deep-copied from the descriptor."""
+    import copy
+    live = P is not None
+    kind = m[0]
+
+    def fresh(sub):
+        sub = copy.deepcopy(sub)
+        if live:
+            rt.build(sub, attach=True)
+        return sub
+    if kind.startswith("list_") or kind.startswith("ns_"):
+        _, si, ri, path = m[:4]
+        n = aprov[si][ri]
+        for i in path:
+            n = n["ch"][i]
+        o = n.get("_o")
+        if kind == "list_insert":
+            sub = fresh(m[5])
+            if live:
+                o.value.insert(m[4], sub["_o"])
+            n["ch"].insert(m[4], sub)
+        elif kind == "list_append":
+            sub = fresh(m[4])
+            if live:
+                o.value.append(sub["_o"])
+            n["ch"].append(sub)
+        elif kind == "list_extend":
+            subs = [fresh(x) for x in m[4]]
+            if live:
+                o.value.extend([x["_o"] for x in subs])
+            n["ch"].extend(subs)
+        elif kind == "list_pop":
+            if live:
+                o.value.pop(m[4])
+            n["ch"].pop(m[4])
+        elif kind == "list_del":
+            if live:
+                del o.value[m[4]:m[5]]
+            del n["ch"][m[4]:m[5]]
+        elif kind == "list_setitem":
+            sub = fresh(m[5])
+            if live:
+                o.value[m[4]] = sub["_o"]
+            n["ch"][m[4]] = sub
+        elif kind == "list_setslice":
+            subs = [fresh(x) for x in m[6]]
+            if live:
+                o.value[m[4]:m[5]] = [x["_o"] for x in subs]
+            n["ch"][m[4]:m[5]] = subs
+        elif kind == "list_reorder":
+            new = [n["ch"][i] for i in m[4]]
+            if live:
+                o.value = [x["_o"] for x in new]
+            n["ch"][:] = new
+        elif kind == "list_remove":
+            if live:
+                o.value.remove(n["ch"][m[4]]["_o"])
+            n["ch"].pop(m[4])
+        elif kind == "ns_add":
+            sub = fresh(m[4])
+            if live:
+                o.add_referable(sub["_o"])
+            n["ch"].append(sub)
+        elif kind == "ns_remove":
+            if live:
+                o.remove_referable(n["ch"][m[4]]["k"])
+            n["ch"].pop(m[4])
+        else:
+            raise ValueError(f"unknown mutation {kind}")
+    elif kind == "prov_remove":
+        aprov.pop(m[1])
+        if live:
+            P.stores.pop(m[1])
+            del P.mux.providers[m[1]]
+    elif kind == "prov_reverse":
+        aprov.reverse()
+        if live:
+            P.stores.reverse()
+            P.mux.providers.reverse()
+    elif kind == "prov_move":
+        aprov.insert(m[2], aprov.pop(m[1]))
+        if live:
+            P.stores.insert(m[2], P.stores.pop(m[1]))
+            P.mux.providers.insert(m[2], P.mux.providers.pop(m[1]))
+    elif kind == "store_discard":
+        t = aprov[m[1]].pop(m[2])
+        if live:
+            P.stores[m[1]].discard(t["_o"])
+    elif kind == "store_add":
+        sub = fresh(m[2])
+        if live:
+            P.stores[m[1]].add(sub["_o"])
+        aprov[m[1]].append(sub)
+    elif kind == "store_move":
+        t = aprov[m[1]].pop(m[2])
+        if live:
+            P.stores[m[1]].discard(t["_o"])
+            P.stores[m[3]].add(t["_o"])
+        aprov[m[3]].append(t)
+    else:
+        raise ValueError(f"unknown mutation {kind}")
+
+
+def gen_mutations(rng, aprov, depth, count):
+    """1-3 applicable mutations for the abstract provider (applied to it, in place); returns the descriptors."""
+    muts = []
+    for _ in range(rng.randint(1, 3)):
+        cands = []
+        for si, s in enumerate(aprov):
+            for ri, root in enumerate(s):
+                for p, n, _ in rt.walk(root):
+                    if n["c"] == "SubmodelElementList":
+                        cands.append(("list", si, ri, p, n))
+                        cands.append(("list", si, ri, p, n))
+                    elif n["c"] in ("Submodel", "SubmodelElementCollection", "Entity"):
+                        cands.append(("ns", si, ri, p, n))
+        for si, s in enumerate(aprov):
+            cands.append(("store", si, None, None, s))
+        if len(aprov) >= 2:
+            cands += [("prov", None, None, None, None)] * 3
+        c = rng.choice(cands)
+        m = None
+        if c[0] == "list":
+            _, si, ri, p, n = c
+            ln = len(n["ch"])
+            new = lambda: rt.gen_elem(rng, max(0, depth - len(p) - 2), None, force=n["elem"])
+            ops = ["insert", "insert", "append", "extend"] + (["pop", "del", "setitem", "setslice", "reorder", "remove"] if ln else [])
+            op = rng.choice(ops)
+            if op == "insert":
+                m = ["list_insert", si, ri, p, rng.randint(0, ln), new()]
+            elif op == "append":
+                m = ["list_append", si, ri, p, new()]
+            elif op == "extend":
+                m = ["list_extend", si, ri, p, [new() for _ in range(rng.randint(1, 2))]]
+            elif op == "pop":
+                m = ["list_pop", si, ri, p, rng.randrange(ln)]
+            elif op == "remove":
+                m = ["list_remove", si, ri, p, rng.randrange(ln)]
+            elif op == "del":
+                a = rng.randrange(ln)
+                m = ["list_del", si, ri, p, a, rng.randint(a + 1, ln)]
+            elif op == "setitem":
+                m = ["list_setitem", si, ri, p, rng.randrange(ln), new()]
+            elif op == "setslice":
+                a = rng.randrange(ln)
+                b = rng.randint(a + 1, ln)
+                m = ["list_setslice", si, ri, p, a, b, [new() for _ in range(b - a)]]
+            else:
+                perm = list(range(ln))
+                rng.shuffle(perm)
+                m = ["list_reorder", si, ri, p, perm]
+        elif c[0] == "ns":
+            _, si, ri, p, n = c
+            free = [k for k in rt.ID_SHORTS if k not in [x["k"] for x in n["ch"]]]
+            if n["ch"] and (not free or rng.random() < .5):
+                m = ["ns_remove", si, ri, p, rng.randrange(len(n["ch"]))]
+            elif free:
+                m = ["ns_add", si, ri, p, rt.gen_elem(rng, max(0, depth - len(p) - 2), rng.choice(free))]
+        elif c[0] == "store":
+            _, si, _, _, s = c
+            ids = [t["id"] for t in s]
+            free = [i for i in rt.IDS if i not in ids]
+            op = rng.choice(["discard", "add", "move"])
+            if op == "discard" and s:
+                m = ["store_discard", si, rng.randrange(len(s))]
+            elif op == "move" and s and len(aprov) >= 2:
+                ri = rng.randrange(len(s))
+                targets = [sj for sj, s2 in enumerate(aprov) if sj != si and s[ri]["id"] not in [t["id"] for t in s2]]
+                if targets:
+                    m = ["store_move", si, ri, rng.choice(targets)]
+            if m is None and free:
+                m = ["store_add", si, rt.gen_root(rng, max(1, depth - 1), rng.choice(free))]
+        else:
+            op = rng.choice(["remove", "reverse", "move"])
+            if op == "remove" and len(aprov) >= 2:
+                m = ["prov_remove", rng.randrange(len(aprov))]
+            elif op == "move":
+                m = ["prov_move", rng.randrange(len(aprov)), rng.randrange(len(aprov))]
+            else:
+                m = ["prov_reverse"]
+        if m is None:
+            continue
+        apply_mutation(aprov, m)
+        muts.append(m)
+        count("mutation=" + m[0])
+    return muts
 
 
 def enc_res_sdk(P, fn):
@@ -159,10 +378,38 @@ def oracle_walk(t, ids):
     return ("ok", p)
 
 
+def run_history(aprov0, rounds, facts):
+    """rounds: [{"mut": [mutation descriptors], "queries": [...]}]; the mutations of a round are applied to the
+    live objects (and to the abstract side) before its queries.  Returns ([(abstract provider at that time,
+    observations)], [(signature, message, round index)])."""
+    P = Prov(aprov0)
+    out, fails = [], []
+    for k, r in enumerate(rounds):
+        for m in r["mut"]:
+            try:
+                apply_mutation(P.aprov, m, P)
+            except Exception as e:
+                fails.append((f"C07:mutation:{m[0]}:raises", f"{m[0]} raised {type(e).__name__}: {e}", k))
+                return out, fails
+        if r["mut"]:
+            P.reindex()
+            for msg in P.verify():
+                fails.append(("C07:mutation:container-differs", msg, k))
+        obs, f = run_round(P, r["queries"], facts)
+        out.append((rt.clean(P.aprov), obs))
+        tag = "" if k == 0 else "after-mutation:"
+        fails += [(sig.replace("C07:", "C07:" + tag, 1), msg, k) for sig, msg in f]
+    return out, fails
+
+
 def run_queries(aprov, queries, facts, chk=None):
-    """Returns (observations, list of oracle failures (signature, message))."""
+    """One round without history.  Returns (observations, list of oracle failures (signature, message))."""
+    return run_round(Prov(aprov), queries, facts)
+
+
+def run_round(P, queries, facts):
     from basyx.aas import model
-    P = Prov(aprov)
+    aprov = P.aprov
     rtypes = facts["rtypes"]
     kt_by_code = {k.value: k for k in model.KeyTypes}
     obs, fails = [], []
@@ -199,7 +446,7 @@ def run_queries(aprov, queries, facts, chk=None):
                     fails.append(("C07:from_referable-resolve:not-identical",
                                   f"from_referable(x).resolve(provider) returned {got!r} for x={x!r}"))
             try:
-                y = P.objs[si][ri].get_referable([k.value for k in ref.key[1:]]) if len(ref.key) > 1 else P.objs[si][ri]
+                y = P.obj(si, ri, []).get_referable([k.value for k in ref.key[1:]]) if len(ref.key) > 1 else P.obj(si, ri, [])
                 if y is not x:
                     fails.append(("C07:get_referable:not-identical", f"root.get_referable(path) returned {y!r} for {x!r}"))
             except Exception as e:
@@ -312,7 +559,7 @@ def gen_queries(rng, aprov, facts, per_node, count):
                     ty = rng.choice([0, ty_ok])
                     listpos = [j for j in range(1, len(chain)) if chain[j][1]["c"] == "SubmodelElementList"]
                     idpos = [j for j in range(1, len(chain)) if chain[j][1]["c"] != "SubmodelElementList"]
-                    kinds = ["trailing", "root", "firsttype", "wrongtype", "same"]
+                    kinds = ["trailing", "root", "firsttype", "wrongtype", "same"] + (["trailing"] * 3 if n["c"] in ("File", "Blob") else [])
                     if len(ks) > 1:
                         kinds += ["prefix", "ktnoise"]
                     if idpos:
@@ -324,10 +571,16 @@ def gen_queries(rng, aprov, facts, per_node, count):
                         ks = ks[:rng.randint(1, len(ks) - 1)]
                         ty = 0
                     elif kind == "trailing":
-                        ks = ks + [(kt_code["PROPERTY"], rng.choice(["zz", "0", "a", "1"]))]
-                        if rng.random() < .3:
-                            ks = ks + [(kt_code["PROPERTY"], "b")]
-                        ty = 0
+                        if n["c"] in ("File", "Blob") and len(ks) > 1 and rng.random() < .8:
+                            # the one extra key the reference constraints admit behind a File/Blob
+                            ks = ks + [(kt_code["FRAGMENT_REFERENCE"], rng.choice(["frag", "0", "a", "#/x"]))]
+                            kind = "trailing-fragment"
+                            ty = rng.choice([0, ty_ok])
+                        else:
+                            ks = ks + [(kt_code["PROPERTY"], rng.choice(["zz", "0", "a", "1"]))]
+                            if rng.random() < .3:
+                                ks = ks + [(kt_code["PROPERTY"], "b")]
+                            ty = 0
                     elif kind == "unknown" and idpos:
                         j = rng.choice(idpos)
                         ks[j] = (ks[j][0], rng.choice(BAD_IDS + [ks[j][1].swapcase(), ks[j][1] + "x"]))
